@@ -550,7 +550,27 @@ func runMergeGuards(c *core.Ctx) {
 			}
 			return false
 		}
-		consulted := an.AllHave(fwd, func(g an.Cond) bool {
+		// (a forwarding path that replaces the seen-set by a fresh one — the event opens an older
+		// timestamp — has nothing to consult: no id forwarded at the previous timestamp can equal this one)
+		var resetBlocks []*ssa.BasicBlock
+		an.Region(fn, nil, func(o an.Occ) {
+			if mu, ok := o.In.(*ssa.MapUpdate); ok && o.Path(mu.Map) == "recv.seen" && o.Path(mu.Key) == sub && strings.HasPrefix(o.Path(mu.Value), "make:map") {
+				resetBlocks = append(resetBlocks, mu.Block())
+			}
+		})
+		var consultPaths []an.CondPath
+		for _, p := range fwd {
+			resets := false
+			for _, b := range resetBlocks {
+				if p.Visits(b) {
+					resets = true
+				}
+			}
+			if !resets {
+				consultPaths = append(consultPaths, p)
+			}
+		}
+		consulted := len(consultPaths) > 0 && an.AllHave(consultPaths, func(g an.Cond) bool {
 			p := g.Path(g.V)
 			if (p == seenKey || p == "ok("+seenKey+")") && !g.True { // map[id]bool value, or presence in a map[id]struct{}
 				return true
